@@ -148,6 +148,7 @@ func (w *world) gen() {
 			Cert:       []actors.CertKind{actors.CertValid, actors.CertValid, actors.CertSelfSigned, actors.CertWrongName, actors.CertExpired}[s.T.Choose(st, 5)],
 			RequireTLS: s.T.Choose(st, 2) == 1,
 			Quit421:    s.T.Choose(st, 6) == 0,
+			Perm552:    s.T.Choose(st, 4) == 0,
 			Rcpt:       map[string][]actors.Outcome{}, FinalPer: map[string][]actors.Outcome{}}
 		num := []int{0, 2, 4}[s.T.Choose(st, 3)]
 		for k := 0; k < 6; k++ {
